@@ -50,6 +50,40 @@ pub fn run(seed: u64, count: usize, thorough: bool, out: &mut Out) {
         out.case("C11", call("fullsort", vec![before.clone()]), short(&a), "prop:full_sort", p.total_atom_count() > 1);
         out.case("C11", call("fullsort", vec![before.clone()]), short(&bp), "prop:par_full_sort", p.total_atom_count() > 1);
         out.count("sort");
+        // ---- large containers with many tied identifiers (an unstable sort only shows beyond ~20 elements)
+        if i % 6 == 0 {
+            let mut big = PDB::new();
+            let mut model = Model::new(1);
+            let mut chain = Chain::new("A").expect("chain");
+            let n_res = 25 + rng.below(if thorough { 200 } else { 60 });
+            for k in 0..n_res {
+                let ic = *rng.pick(&[None, Some("A")]);
+                let mut r = Residue::new(rng.range(1, 3) as isize, ic, None).expect("residue");
+                let mut c = Conformer::new(*rng.pick(&["ALA", "GLY"]), None, None).expect("conformer");
+                // the atom serial identifies the residue (position before the sort) so that a reordering of ties is visible
+                c.add_atom(gen::short_atom(&mut rng, 1000 + k));
+                if k == 0 {
+                    for j in 0..(25 + rng.below(40)) {
+                        let ser = 5 + rng.below(3);
+                        let mut a = gen::short_atom(&mut rng, ser);
+                        let _ = a.set_name(format!("N{j}"));
+                        c.add_atom(a);
+                    }
+                }
+                r.add_conformer(c);
+                chain.add_residue(r);
+            }
+            model.add_chain(chain);
+            big.add_model(model);
+            let before = short(&big);
+            let mut a = big.clone();
+            a.full_sort();
+            let mut bp = big.clone();
+            bp.par_full_sort();
+            out.case("C11", call("fullsort", vec![before.clone()]), short(&a), "prop:full_sort", true);
+            out.case("C11", call("fullsort", vec![before]), short(&bp), "prop:par_full_sort", true);
+            out.count("sort-large-ties");
+        }
         // ---- renumber (any shape), idempotence
         let mut r = p.clone();
         r.renumber();
